@@ -236,7 +236,13 @@ def guards_of(node: ast.AST, stop: ast.AST | None = None) -> list[tuple[ast.AST,
                     for i in g.ifs:
                         out.append((i, True))
         child = a
-    return out
+    # normalise: `not t` under polarity p is `t` under polarity not p (an if/else with swapped branches reads the same)
+    norm = []
+    for t, pol in out:
+        while isinstance(t, ast.UnaryOp) and isinstance(t.op, ast.Not):
+            t, pol = t.operand, not pol
+        norm.append((t, pol))
+    return norm
 
 
 def inside(node: ast.AST, container: ast.AST) -> bool:
